@@ -9,7 +9,7 @@ PROP = {
     "rule": "cases = generated scripts of 8-40 messages mixing 26 request methods with valid / wrong-typed / null / missing-field params, unknown methods, $/cancelRequest (for sent, finished and never-used ids), document notifications, watched-file events, config reloads, saves; every (method, params shape) pair is inserted systematically; "
             "at quiescence every sent request id must have exactly one response; distinct = hash of (lock interleaving, request kinds); non-trivial = >= 2 requests",
     "min_nontrivial": {"quick": 1200, "thorough": 60000},
-    "max_secs": {"quick": 600, "thorough": 1200},
+    "max_secs": {"quick": 600, "thorough": 1500},
     "require_clauses": ["history-checked", "requests-sent", "error-responses", "cancels-sent"],
     "assumptions": COMMON_ASSUME + ["the `initialize` handshake and the stdio framing of run_ls are outside the simulator (the dispatch functions are driven directly)", "settled = 120 virtual seconds without server output"],
     "level_text": "Real on_request_handler / ServerContext::task / cancellation map; ~2400 (quick) scripts with ~20k requests, each request id checked for exactly one response at quiescence.",
